@@ -69,6 +69,7 @@ var infoCodes = []int{100, 102, 103, 103, 199}
 // names the handler may set; all are non-framing. Content-Type is only ever Set (single value).
 var hdrNames = []string{"X-A", "X-A", "x-b", "X-B", "Set-Cookie", "Cache-Control", "Vary", "X-Empty", "Location", "Etag"}
 var hdrValues = []string{"1", "two", "a=b", "c=d; Path=/", "no-cache", "text/html", "  padded  ", "v3", "Accept-Encoding", "\"tag\""}
+
 // (none of these can be the result of content sniffing, so a sniffed type is never mistaken for a handler-set one)
 var ctValues = []string{"text/plain; charset=iso-8859-1", "application/json", "text/csv", "application/x-c36; v=1"}
 
